@@ -1604,8 +1604,16 @@ class PackBasedObjectStore(PackCapableObjectStore, PackedObjectContainer):
           progress: Optional progress reporting function.
         Returns: Pack object of the objects written.
         """
-        count = len(objects)
-        record_iter = (full_unpacked_object(o) for (o, p) in objects)
+        # A pack holds every object once (see pack_objects_to_data): an object
+        # passed twice must not be written twice.
+        seen_ids: set[ObjectID] = set()
+        unique: list[ShaFile] = []
+        for o, _p in objects:
+            if o.id not in seen_ids:
+                seen_ids.add(o.id)
+                unique.append(o)
+        count = len(unique)
+        record_iter = (full_unpacked_object(o) for o in unique)
         return self.add_pack_data(count, record_iter, progress=progress)
 
 
